@@ -45,6 +45,9 @@ def _wm_violation(kind, msg, M, **sig):
     return {"kind": kind, "sig": s, "msg": "[max=%d] %s" % (M, msg), "case": {"layer": "wm", "M": M}}
 
 
+WM_STATE_CAP = 400000
+
+
 def wm_explore(M, sizes=None, depth=None):
     """BFS over the real WindowManager for maximum M.  State = (manager,
     outstanding, credit, overacked).  Returns (states, transitions, viols, closed, trace sample)."""
@@ -127,6 +130,10 @@ def wm_explore(M, sizes=None, depth=None):
                         sample = tr2
         frontier = nxt
         d += 1
+        if viols or len(seen) > WM_STATE_CAP:
+            # a counterexample is in hand (BFS: a shortest one), or the space is not closing (a manager whose
+            # counters grow without bound is itself suspicious, but is reported only as "not closed")
+            break
     return len(seen), trans, list(viols.values()), not frontier, sample, d
 
 
@@ -153,6 +160,7 @@ def job_wm(job):
 # ------------------------------------------------------------------ (b)
 
 IWS_VALUES = [1, 4, 16, 65535]
+PUMP_FRAMES = 600
 
 
 class S:
@@ -206,6 +214,9 @@ class Spec:
                 continue
             for L in ("1", "half", "fill"):
                 acts.append("data:%d:%s" % (sid, L))
+            acts.append("data:%d:half:pad" % sid)
+            if not st.out.get(sid):
+                acts.append("pump:%d" % sid)
             acts.append("data:%d:fill:es" % sid)
             acts.append("reset:%d" % sid)
             acts.append("rxrst:%d" % sid)
@@ -217,6 +228,8 @@ class Spec:
         for sid in sorted(st.reset):
             for L in ("1", "fill"):
                 acts.append("rdata:%d:%s" % (sid, L))
+            acts.append("rdata:%d:half:pad" % sid)      # padding counts: 1 + 5 bytes of every such frame are not payload
+            acts.append("rpump:%d" % sid)
         for v in IWS_VALUES:
             if v != (st.pending[-1] if st.pending else st.acked_iws):
                 acts.append("iws:%d" % v)
@@ -279,10 +292,12 @@ class Spec:
             on_reset = parts[0] == "rdata"
             A = st.Ac if on_reset else min(st.Ac, st.As[sid])
             L = {"1": 1, "half": max(1, A // 2), "fill": A}[parts[2]]
-            es = len(parts) > 3
-            if L > A or L < 1 or L > 2 ** 24 - 1:
+            es = "es" in parts[3:]
+            pad = 5 if "pad" in parts[3:] else None
+            over = 0 if pad is None else pad + 1
+            if L > A or L < 1 or L > 2 ** 24 - 1 or L < over:
                 return Step("data-not-possible", viols, prune=True)
-            o = h.rx([wire.data(sid, b"x" * L, es=es)], ("data", sid, es))
+            o = h.rx([wire.data(sid, b"x" * (L - over), es=es, pad=pad)], ("data", sid, es))
             if o.kind != "ok":
                 bad("fitting-data-rejected", "DATA %d bytes on stream %d (advertised conn %d / stream %s) -> %s %s" % (
                     L, sid, st.Ac, st.As.get(sid), o.brief(), o.msg), on_reset_stream=on_reset)
@@ -306,6 +321,45 @@ class Spec:
                     st.ended.add(sid)
                 out = "data" + ("-es" if es else "")
             self._absorb(st, o, bad)
+        elif parts[0] in ("pump", "rpump"):
+            # a long run of small, heavily padded frames (1 payload byte, 255 of padding): a leak of a few bytes per
+            # frame exhausts a window only after hundreds of frames.  On an open stream the application acknowledges
+            # each frame's flow_controlled_length at once; on a reset stream the library does so itself.
+            sid = int(parts[1])
+            on_reset = parts[0] == "rpump"
+            L = 257
+            sent = 0
+            for _ in range(PUMP_FRAMES):
+                A = st.Ac if on_reset else min(st.Ac, st.As[sid])
+                if L > A:
+                    break
+                o = h.rx([wire.data(sid, b"x", pad=255)], ("data", sid, False))
+                if o.kind != "ok":
+                    bad("fitting-data-rejected", "pumped DATA 257 bytes on stream %d (advertised conn %d / stream %s) -> %s %s" % (
+                        sid, st.Ac, st.As.get(sid), o.brief(), o.msg), on_reset_stream=on_reset)
+                    st.dead = True
+                    return Step("data-rejected", viols, prune=True)
+                sent += 1
+                st.Ac -= L
+                if on_reset:
+                    st.credit[0] += L
+                    self._absorb(st, o, bad)
+                    continue
+                st.As[sid] -= L
+                self._absorb(st, o, bad)
+                o = h.api("acknowledge_received_data", L, sid)
+                if o.kind != "ok":
+                    bad("ack-refused", "acknowledge_received_data(%d, %d) -> %s" % (L, sid, o.brief()))
+                    st.dead = True
+                    return Step("ack-refused", viols, prune=True)
+                st.credit[0] += L
+                st.credit[sid] = st.credit.get(sid, 0) + L
+                self._absorb(st, o, bad)
+                if viols:
+                    break
+            if not sent:
+                return Step("data-not-possible", viols, prune=True)
+            out = parts[0]
         elif parts[0] == "ack":
             sid = int(parts[1])
             n = st.out[sid] if parts[2] == "all" else st.out[sid] // 2
